@@ -8,6 +8,7 @@ CONSTANTS
   MaxDepth = 8
   Rate = 0
   AllowThrow = TRUE
+  AllowDrop = TRUE
   Dev_ReturnConst = FALSE
   Dev_AwaitIsYield = FALSE
   Dev_ThrowIsYield = FALSE
